@@ -51,6 +51,8 @@ def consuming(g):
     if h == "NestedIn": return True
     if h == "NestedDelims": return True
     if h == "ExtWrap": return consuming(g[1])
+    if h == "WithState": return consuming(g[2])
+    if h == "Lazy": return consuming(g[1])
     if h == "Pratt": return consuming(g[2])
     return False
 
@@ -205,7 +207,8 @@ class Gen:
         if c == "Pratt": return self.pratt()
         if c == "Rec": return self.rec(d - 1)
         if c == "Boxed": return [c, G()]
-        if c in ("NestedIn", "ExtWrap"): return [c, G()]
+        if c in ("NestedIn", "ExtWrap", "Lazy"): return [c, G()]
+        if c == "WithState": return [c, self.r.choice([0, 5, 7, 999]), G()]
         raise AssertionError(c)
 
     # ----- Pratt tables -----
@@ -349,9 +352,10 @@ def sample(rng, g, alpha, ctx=()):
             c = [t for t in alpha if t not in p[1]]
             return [rng.choice(c)] if c else [rng.choice(alpha)]
         return [rng.choice(alpha)]
-    if h in ("Map", "MapWith", "To", "Filter", "MapCtx"): return S(g[2])
+    if h in ("Map", "MapWith", "To", "Filter", "MapCtx", "WithState"): return S(g[2])
     if h == "WithCtx": return sample(rng, g[2], alpha, tuple(val_toks(g[1])))
     if h in ("Ignored", "ToSpan", "ToSlice", "ExtWrap"): return S(g[1])
+    if h == "Lazy": return S(g[1]) + [rng.choice(alpha) for _ in range(rng.randint(0, 2))]
     if h in ("TryMap", "TryMapWith"): return S(g[4])
     if h == "Validate": return S(g[3])
     if h in ("Then", "IgnoreThen", "ThenIgnore"): return S(g[1]) + S(g[2])
